@@ -510,7 +510,7 @@ package node
 
 // what every step of an edit guarantees to the nodes involved:
 //   the begin/end balance is unchanged, a node error surfaces as an error, nothing is written after a failure
-//@ macro stepOK(err error) bool = open == old(open) && ((failed && !old(failed)) ==> err != nil) && (old(failed) ==> failed) && (!old(failed) ==> writesAfterFail == old(writesAfterFail))
+//@ macro stepOK(err error) bool = open == old(open) && ((failed && !old(failed)) ==> err != nil) && (old(failed) ==> failed) && (!old(failed) ==> writesAfterFail == old(writesAfterFail)) && nodeWrites >= old(nodeWrites)
 
 // constraint checks do not talk to nodes (trusted abstraction of the registered constraint objects);
 // nonNavChecks counts constraint consultations for requests that are not pure navigation
@@ -552,6 +552,8 @@ package node
 //@   ensures nodeWrites == old(nodeWrites) ==> writesAfterFail == old(writesAfterFail)
 //@   ensures r.New == old(r.New) && r.Delete == old(r.Delete) && r.Target == old(r.Target)
 //@   ensures r.Target != nil ==> nonNavChecks == old(nonNavChecks)
+//@   ensures result0 != nil && r.New ==> nodeWrites == old(nodeWrites) + 1
+//@   ensures result0 != nil ==> result0.Path.Meta == r.Meta && result0.Path.Parent == sel.Path
 //@   ensures result0 != nil ==> result1 == nil && wfS(result0) && result0.parent == sel && result0.Browser == sel.Browser && result0.Constraints == sel.Constraints && !result0.InsideList
 //@   ensures result0 != nil ==> fresh(result0)
 
@@ -565,10 +567,11 @@ package node
 //@   ensures nodeWrites == old(nodeWrites) ==> writesAfterFail == old(writesAfterFail)
 //@   ensures r.New == old(r.New) && r.Delete == old(r.Delete) && r.Target == old(r.Target) && r.First == old(r.First)
 //@   ensures r.Target != nil ==> nonNavChecks == old(nonNavChecks)
+//@   ensures result0 != nil && r.New ==> nodeWrites == old(nodeWrites) + 1
 //@   ensures result0 != nil ==> result3 == nil && result0.parent == sel && result0.Browser == sel.Browser && result0.Constraints == sel.Constraints && result0.InsideList
 //@   ensures result0 != nil ==> result0.Node != nil && result0.Path != nil
-//@   ensures result0 != nil ==> result0.Path.Meta != nil
-//@   ensures result0 != nil ==> fresh(result0)
+//@   ensures result0 != nil ==> result0.Path.Meta == sel.Path.Meta
+//@   ensures result0 != nil ==> fresh(result0) && fresh(result0.Path)
 
 //@ func (sel *Selection) selectVisibleListItem(r *ListRequest) (*Selection, []val.Value, error)
 //@   mode bv
@@ -578,7 +581,20 @@ package node
 //@   loop 1 invariant open == old(open) && writesAfterFail == old(writesAfterFail) && nodeWrites == old(nodeWrites) && failed == old(failed)
 //@   loop 1 invariant !r.New && !r.Delete && r.Selection == old(r.Selection) && r.Selection.Path == old(r.Selection.Path)
 //@   ensures stepOK(result2) && nodeWrites == old(nodeWrites)
-//@   ensures result0 != nil ==> result2 == nil && wfS(result0) && result0.InsideList && fresh(result0)
+//@   ensures result0 != nil ==> result2 == nil && wfS(result0) && result0.InsideList && fresh(result0) && fresh(result0.Path)
+//@   ensures result0 != nil ==> result0.Constraints == sel.Constraints && result0.Path.Meta == sel.Path.Meta
+
+// row bookkeeping of a list request (the counters wrap like any Go integer)
+//@ func (r *ListRequest) SetRow(row int64)
+//@   mode bv
+//@   requires r != nil
+//@   assigns r.Row64, r.Row
+//@   ensures r.Row64 == row
+//@ func (r *ListRequest) IncrementRow()
+//@   mode bv
+//@   requires r != nil
+//@   assigns r.Row64, r.Row, r.First
+//@   ensures !r.First
 
 // the iteration over a container's definitions is abstracted (it asks the node which case of a choice is active)
 //@ func newContainerMetaList(s *Selection) *containerMetaList
@@ -640,7 +656,7 @@ package node
 //@   assigns open, failed, nodeWrites, writesAfterFail, fieldWrites, fieldPostChecks, nonNavChecks, caseClears, existing.Constraints.compiled
 //@   check [outsideChoiceUntouched] !valid ==> caseClears == old(caseClears) && nodeWrites == old(nodeWrites)
 //@   check [clearsWhenCaseDiffers] valid && result == nil && caseClears == old(caseClears) ==> nodeWrites == old(nodeWrites)
-//@   ensures caseClears <= old(caseClears) + 1
+//@   ensures caseClears <= old(caseClears) + 1 && nodeWrites >= old(nodeWrites)
 //@   ensures open == old(open) && (!old(failed) ==> writesAfterFail == old(writesAfterFail))
 //@   ensures [surface] (failed && !old(failed)) ==> result != nil
 
@@ -665,17 +681,20 @@ package node
 //@   requires editPre(from, to) && solid(m)
 //@   check [insertCreates] strategy == editInsert && fromChild != nil && !newChild ==> result != nil
 //@   check [updateNeverCreates] strategy == editUpdate ==> !newChild
-//@   check [createIssuesNew] newChild ==> nodeWrites >= old(nodeWrites) + 1
+//@   check [createIssuesNew] newChild && toChild != nil ==> nodeWrites >= old(nodeWrites) + 1
 //@   callsite enter: arg2 == newChild && arg3 == strategy && !arg4 && !arg5
 //@   assigns open, failed, nodeWrites, writesAfterFail, fieldWrites, fieldPostChecks, nonNavChecks, caseClears, from.Constraints.compiled, to.Constraints.compiled
 //@   ensures stepOK(result)
 
 //@ func (e editor) list(from *Selection, to *Selection, m *meta.List, new bool, strategy editStrategy) error
-//@   mode bv
+//@   mode int
 //@   property C12 C03 C04
 //@   requires editPre(from, to) && m != nil && from.Path != nil
 //@   assigns open, failed, nodeWrites, writesAfterFail, fieldWrites, fieldPostChecks, nonNavChecks, caseClears, from.Constraints.compiled, to.Constraints.compiled
-//@   loop 1 invariant open == old(open) && !failed && writesAfterFail == old(writesAfterFail)
+//@   loop 1 invariant open == old(open) && !failed && writesAfterFail == old(writesAfterFail) && nodeWrites >= old(nodeWrites)
+//@   loop 1 invariant fromChild != nil ==> wfS(fromChild) && solid(fromChild.Path.Meta) && fromChild.Constraints == from.Constraints
+//@   loop 1 invariant fromRequest != nil && fromRequest.Selection == from && !fromRequest.New && !fromRequest.Delete
+//@   loop 1 invariant !toRequest.Delete
 //@   callsite enter: arg2 == (nodeWrites > at(1, nodeWrites))
 //@   callsite enter: arg3 == editUpsert && !arg4 && !arg5
 //@   ensures stepOK(result)
@@ -685,7 +704,7 @@ package node
 //@ func (e editor) clearChoiceCase(sel *Selection, c *meta.ChoiceCase) error
 //@   trusted
 //@   assigns open, failed, nodeWrites, writesAfterFail, fieldWrites, fieldPostChecks, nonNavChecks, caseClears, sel.Constraints.compiled
-//@   ensures caseClears == old(caseClears) + 1
+//@   ensures caseClears == old(caseClears) + 1 && nodeWrites >= old(nodeWrites)
 //@   ensures open == old(open) && ((failed && !old(failed)) ==> result != nil) && (!old(failed) ==> writesAfterFail == old(writesAfterFail))
 
 // ---- C08: Find is pure navigation ---------------------------------------------------------------------------
